@@ -34,7 +34,7 @@ RULE = (
     "distinct interleavings (decision sequences) per scenario; non-trivial = a schedule with at least one context "
     "switch between two operations on the shared lookup."
 )
-RULE += ' added since: scenario modify-first, quiescence oracle (after all threads finish one more get must return a template of the newest source), cached defs with two cache types recorded by the backend, module-namespace race, render templates under /sub with relative URIs and root-level decoys. three free-running renders racing for the first use of a cached def / page / block with the Beaker backend.'
+RULE += ' added since: scenario modify-first, quiescence oracle (after all threads finish one more get must return a template of the newest source), cached defs with two cache types recorded by the backend, module-namespace race, render templates under /sub with relative URIs and root-level decoys. three free-running renders racing for the first use of a cached def / page / block with the Beaker backend. a modification of the referred-to template injected at each get_template call made during a render (inherit / include / namespace).'
 ASSUMPTIONS = [
     "single bytecodes / dict operations are atomic (GIL builds); interleavings inside C-level operations are not explored",
     "file modifications are made atomic with respect to the scheduler (content and mtime change together)",
@@ -42,6 +42,7 @@ ASSUMPTIONS = [
 ]
 MIN_NONTRIVIAL = 200
 REQUIRED_COUNTERS = ["schedules", "coarse_schedules_exhaustive", "line_level_schedules", "line_events", "context_switches", "lock_contentions", "first_request_sharing_checked", "render_schedules", "free_running_runs", "beaker_first_use_races"]
+REQUIRED_COUNTERS += ["render_vs_modification_points"]
 SHARDS = {"quick": 32, "thorough": 64}
 
 _st = {"sched": None}
@@ -681,6 +682,78 @@ def run_beaker_first_use(res):
         res.nontrivial("beaker-first-use", section)
 
 
+def run_render_vs_modification(res):
+    """a render of an inheriting / including / namespace-using template while the template it refers to is modified
+    and re-fetched by another party: the modification is injected at the k-th get_template call made during the render
+    (every k), which is where a concurrent modifier can fall.  Whatever k, the output is the one an unmodified or a
+    fully modified referred-to template gives - never a mixture of the two versions."""
+    clock = _st["clock"]
+    TL = _st["TemplateLookup"]
+    for how in ("inherit", "include", "namespace"):
+        for k in range(1, 7):
+            base = tempfile.mkdtemp(prefix="c16rm-")
+            try:
+                root = os.path.join(base, "root")
+                os.makedirs(root)
+
+                def write(name, text):
+                    fp = os.path.join(root, name)
+                    with open(fp, "w") as f:
+                        f.write(text)
+                    os.utime(fp, (clock.now, clock.now))
+
+                def ref(v):
+                    if how == "inherit":
+                        return '%s[${next.body()}|${self.footer()}|${self.footer()}]<%%def name="footer()">%s-footer</%%def>' % (v.upper(), v)
+                    return '%s-body<%%def name="footer()">%s-footer</%%def>' % (v.upper(), v)
+
+                main = {"inherit": '<%inherit file="ref.html"/>child:${parent.footer()}',
+                        "include": '<%namespace name="n" file="ref.html"/>[<%include file="ref.html"/>|${n.footer()}|<%include file="ref.html"/>]',
+                        "namespace": '<%namespace name="n" file="ref.html"/>[${n.footer()}|${n.body()}|${local.get_namespace("ref.html").footer()}]'}[how]
+                write("main.html", main)
+                write("ref.html", ref("old"))
+                clock.advance(3)
+                state = {"n": 0}
+
+                class Hook(TL):
+                    def get_template(self, uri):
+                        if uri.endswith("ref.html"):
+                            state["n"] += 1
+                            if state["n"] == k:
+                                clock.advance(3)
+                                write("ref.html", ref("new"))
+                                clock.advance(3)
+                        return TL.get_template(self, uri)
+
+                lk = Hook(directories=[root], filesystem_checks=True)
+                allowed = {}
+                for v in ("old", "new"):
+                    lk0 = TL(directories=[root])
+                    lk0.put_string("ref.html", ref(v))
+                    lk0.put_string("main.html", main)
+                    allowed[v] = lk0.get_template("main.html").render_unicode()
+                res.evaluations += 1
+                res.count("render_vs_modification_points")
+                try:
+                    out = lk.get_template("main.html").render_unicode()
+                except Exception as e:
+                    out = "%s: %s" % (type(e).__name__, e)
+                ok = out in allowed.values()
+                if how != "inherit" and not ok:
+                    # separate <%include>s / namespace uses may each see the version current at the moment they were
+                    # resolved (namespaces when the render starts), but every single use is of ONE version
+                    pieces_old = allowed["old"].strip("[]").split("|")
+                    pieces_new = allowed["new"].strip("[]").split("|")
+                    got = out.strip("[]").split("|")
+                    ok = len(got) == len(pieces_old) and all(g in (a, b) for g, a, b in zip(got, pieces_old, pieces_new))
+                if not ok:
+                    res.violate("render-mixes-versions", "%s, ref.html modified at the %d. get_template call of the render: output %r, with the old ref.html it is %r, with the new %r"
+                                % (how, k, out, allowed["old"], allowed["new"]), witness="render concurrent with a modification of the template it refers to")
+                res.nontrivial("render-vs-mod", how, k)
+            finally:
+                shutil.rmtree(base, ignore_errors=True)
+
+
 # ------------------------------------------------------------------ plumbing
 def gen_cases(tier, seed):
     for name, (_, threads, _, cbound) in SCENARIOS.items():
@@ -751,6 +824,8 @@ def run_case(case):
         run_module_namespace_race(res)
         if case["index"] % 2 == 0:
             run_beaker_first_use(res)
+        if case["index"] == 1:
+            run_render_vs_modification(res)
     elif k == "replay":
         st = sched.DFS(case["prefix"], case["bound"])
         run_schedule(case["scenario"], st, case["line"], res, case)
